@@ -123,6 +123,18 @@ class Translator(object):
                         *([z3.RealSort()] * (len(a.args) + 1)))
         self.funcs[key] = f
       t = f(*[self.p(x) for x in a.args])
+      if a.name.startswith('root') and a.name[4:].isdigit() and len(a.args) == 1:
+        # real d-th root: for x >= 0, r >= 0 and r^d == x (the normal form already rewrites
+        # sqrt(x)^2 to x, so the solver needs the defining equation as well)
+        d = int(a.name[4:])
+        x = self.p(a.args[0])
+        pw = t
+        for _ in range(d - 1):
+          pw = pw * t
+        if not self.abstract_nl:
+          defs.append(z3.Implies(x >= 0, z3.And(t >= 0, pw == x)))
+        else:
+          defs.append(z3.Implies(x >= 0, t >= 0))
     else:
       raise ValueError(k)
     self.atom_term[a.id] = t
